@@ -6,8 +6,8 @@ package main
 
 import (
 	"fmt"
-	"strconv"
 	"math/big"
+	"strconv"
 	"strings"
 )
 
@@ -309,7 +309,9 @@ func zeroOf(s Sort) string {
 		return bvInt(0, s.Width())
 	case s.IsArr():
 		i, e := s.ArrParts()
-		_ = i
+		if e == SStr && i == BV(64) {
+			return "ZeroStrArr" // cvc5 rejects constant arrays of an uninterpreted constant
+		}
 		return fmt.Sprintf("((as const %s) %s)", s, zeroOf(e))
 	}
 	panic("zeroOf: " + string(s))
